@@ -283,7 +283,26 @@ int main(int argc, char **argv)
                 ops += 2;
                 msglen = 0;
                 uint64_t tot = 0;
+                /* one episode in three: jump the running total (a whole number of 1024-byte blocks, so the
+                   partial-block position stays consistent) across 2^29 / 2^30 / 2^31 or close to 2^32, as if
+                   that many bytes had been hashed; no oracle exists for such an episode, the Lean model
+                   (same jump) is the reference for the length arithmetic of update / finalize */
+                int jump_at = rng_below(&r, 3) == 0 ? (int) rng_below(&r, nupd + 1) : -1, jumped = 0;
                 for (int u = 0; u < nupd; u++, ops++) {
+                        if (u == jump_at) {
+                                static const uint64_t marks[] = { 1ull << 29, 1ull << 30, 1ull << 31, (1ull << 32) - (1ull << 26), 3ull << 29 };
+                                uint64_t mark = marks[rng_below(&r, 5)];
+                                uint64_t want = mark - 1024 * (uint64_t) rng_below(&r, 4) - (rng_below(&r, 2) ? 0 : (uint64_t) 1024 * rng_below(&r, 2048));
+                                if (want > tot + 1024) {
+                                        uint64_t delta = (want - tot) / 1024 * 1024;
+                                        fprintf(fo, "T %llu\n", (unsigned long long) delta);
+                                        *(uint64_t *) (ctx + A->off_total) += delta;
+                                        tot += delta;
+                                        jumped = 1;
+                                        show_ctx(ctx);
+                                        ops++;
+                                }
+                        }
                         uint32_t len = pick_len(&r, maxlen, tot);
                         uint64_t dseed = rng_u64(&r);
                         uint8_t *data = buf + rng_below(&r, 64);
@@ -307,6 +326,7 @@ int main(int argc, char **argv)
                 ops++;
                 episodes++;
                 /* monitors */
+                if (jumped) continue;
                 oracle_mh(msg, msglen, A->W, dig2);
                 if (memcmp(dig, dig2, 4 * A->W)) monitor("oracle mh digest");
                 if (A->murmur) {
